@@ -2567,6 +2567,8 @@ func (p *Parser) selectClause(s *Stmt) {
 	p.next()
 	fc.Loop = p.wordIter("select", fc.ForPos)
 	fc.DoPos = p.followRsrv(fc.ForPos, "select foo [in words]", "do")
+	s.Comments = append(s.Comments, p.accComs...)
+	p.accComs = nil
 	fc.Do, fc.DoLast = p.followStmts("do", fc.DoPos, "done")
 	fc.DonePos = p.stmtEnd(fc, "select", "done")
 	s.Cmd = fc
